@@ -364,6 +364,7 @@ def run_check(pid, cfg, tier, seed, replay=None):
                                               "oracle_failures": unknown_oracle[:20],
                                               "broken_obligations": [list(b) for b in broken],
                                               "model_mismatches": mismatches[:20]})
+        print("reason: %d oracle failures, first: %s" % (len(unknown_oracle), json.dumps(unknown_oracle[0])[:600]))
         print("VIOLATION property=%s replay=%s" % (pid, replay_path))
         rc_final = 1
     elif broken or mismatches or tie_errors or harness_errors:
@@ -373,6 +374,12 @@ def run_check(pid, cfg, tier, seed, replay=None):
                                               "tie_errors": tie_errors[:5], "harness_errors": harness_errors[:5],
                                               "note": "a theorem or the model/implementation correspondence no longer checks; "
                                                       "the property oracle found no failing input on the implementation"})
+        for b in broken[:6]:
+            print("reason: obligation/gate broken: %s" % (list(b),))
+        for e in (tie_errors + harness_errors)[:4]:
+            print("reason: %s" % e[-1200:].replace("\n", " | "))
+        if mismatches:
+            print("reason: %d correspondence mismatches, first: %s" % (len(mismatches), json.dumps(mismatches[0])[:600]))
         print("VIOLATION property=%s replay=%s no-failing-input-found" % (pid, replay_path))
         rc_final = 1
     for k in known_hit:
